@@ -209,7 +209,7 @@ def fcc_cases(tier, seed):
     corpus = []
     words = ["HELLO", "HELLO WORLD", "A  B", "A;B", "A ;B", "A; B", " A", "A ", "  ", " ; ", "A,B", "1,2,3", "#$%", "X+Y",
              "it's", 'say "hi"', "a/b", "a|b", "[x]", "<y>", "~", "A~B", "{}", "x" * 255, " " * 255, "ab " * 85,
-             ";" * 10, "A" * 254 + ";", "END", "FCC", "LABEL NOP", "  LDA #1", "; comment", "A ; comment"]
+             "A\tB", "\t", "TAB\t", ";" * 10, "A" * 254 + ";", "END", "FCC", "LABEL NOP", "  LDA #1", "; comment", "A ; comment"]
     for w in words:
         for d in DELIMS[:8]:
             if d not in w:
